@@ -7,6 +7,7 @@ package vtref
 
 import (
 	"fmt"
+	"math"
 	"strings"
 	"unicode/utf8"
 )
@@ -190,8 +191,7 @@ func (m *machine) parseParams(sub bool, at int) [][]int {
 	}
 	var out [][]int
 	cur := []int{}
-	v := 0
-	digits := 0
+	v, digits := 0, 0
 	for _, b := range m.params {
 		switch {
 		case b == ';':
@@ -202,7 +202,18 @@ func (m *machine) parseParams(sub bool, at int) [][]int {
 		case b == ':' && sub:
 			cur = append(cur, v)
 			v, digits = 0, 0
+		case sub:
+			// control sequences: a value too large for an int
+			// saturates; it can never be negative (a string of digits
+			// denotes no negative number)
+			if v > (math.MaxInt32-9)/10 {
+				v = math.MaxInt32
+			} else {
+				v = v*10 + int(b-'0')
+			}
 		default:
+			// device control strings: values beyond 18 digits are not
+			// defined (the library reports an error and goes on)
 			if digits >= 18 {
 				m.undefined(at)
 			}
